@@ -259,7 +259,11 @@ def run(ctx, host=None):
                 probs.append('the last-row access happens before the empty-page test')
             # every row of the page is consumed
             rowloops = [s for s in loop.body if isinstance(s, ast.For) and resvar and norm(s.iter) == resvar]
-            if not rowloops:
+            comps = [c for s in loop.body for x in ast.walk(s) if isinstance(x, (ast.ListComp, ast.SetComp, ast.DictComp, ast.GeneratorExp)) for c in x.generators[:1]
+                     if resvar and norm(c.iter) == resvar and not c.ifs]
+            whole = [x for s in loop.body for x in ast.walk(s) if isinstance(x, ast.Call) and isinstance(x.func, ast.Attribute) and x.func.attr in ('extend', 'update')
+                     and resvar and any(norm(a) == resvar for a in x.args)]
+            if not rowloops and not comps and not whole:
                 probs.append('the rows of a page are not all consumed')
             if probs:
                 chk.bad(R3, f.qualname, f'paging loop at line {loop.lineno}', '; '.join(probs) + ': rows at page boundaries would be skipped or repeated', where=f'{f.module.relpath}:{loop.lineno}')
